@@ -836,6 +836,78 @@ fn exec_srv(t: &[&str], cx: &Ctx) -> Option<CaseOut> {
     Some(CaseOut { line, out, fails, nontrivial, stats })
 }
 
+/// `bigxfr <extra records> <udp|tcp> <edns payload|0>` — implementation-vs-oracle only (`~`): a signed
+/// AXFR of a zone with many records; if the reply carries a MAC it must verify with the verifier
+/// the client kept, whatever the size limit did to the message.
+fn exec_bigxfr(t: &[&str], cx: &Ctx) -> Option<CaseOut> {
+    let [_, extra, proto, payload] = t else { return None };
+    let extra: u32 = extra.parse().ok()?;
+    let payload: u16 = payload.parse().ok()?;
+    let protocol = match *proto {
+        "udp" => Protocol::Udp,
+        "tcp" => Protocol::Tcp,
+        _ => return None,
+    };
+    let line = format!("bigxfr {extra} {proto} {payload}");
+    let mut fails: Vec<(String, &'static str)> = vec![];
+    let signer = sa();
+    let s = signer.signer()?;
+    let handler = build_zone(AxfrPolicy::AllowSigned, false, vec![s.clone()], None, &cx.rt);
+    for i in 0..extra {
+        let name = Name::from_ascii(format!("host-{i:05}.example.com.")).unwrap();
+        cx.rt.block_on(handler.upsert(Record::from_rdata(name, 300, RData::TXT(TXT::new(vec![format!("record number {i} of a zone that does not fit a small message")]))), 0));
+    }
+    let mut catalog = Catalog::new();
+    catalog.upsert(LowerName::new(&origin()), vec![handler.clone() as Arc<dyn ZoneHandler>]);
+    let mut m = axfr_msg(4242);
+    if payload > 0 {
+        let mut e = Edns::new();
+        e.set_max_payload(payload);
+        m.set_edns(e);
+    }
+    let mut verifier = m.finalize(&s, T0).ok()??;
+    let src: SocketAddr = "127.0.0.1:5300".parse().unwrap();
+    let request = Request::from_bytes(m.to_vec().ok()?, src, protocol).ok()?;
+    NOW.store(T0, Ordering::SeqCst);
+    let (stream, mut receiver) = BufDnsStreamHandle::new(src);
+    let handle = ResponseHandle::new(src, stream, protocol);
+    let mut stats = vec![format!("bigxfr.{proto}")];
+    match catch(|| cx.rt.block_on(catalog.handle_request::<_, VTime>(&request, handle))) {
+        Err(p) => {
+            panic_out(&p, "Catalog::handle_request", &mut fails);
+        }
+        Ok(()) => match receiver.next().now_or_never().flatten().map(|m| m.into_parts().0) {
+            None => {
+                stats.push("bigxfr.noreply".into());
+                fails.push(("no reply to a correctly signed AXFR".into(), "C13.ReplyTruncatedAfterSigning"));
+            }
+            Some(reply) => {
+                let rm = Message::from_vec(&reply).ok();
+                let signed = rm.as_ref().and_then(|m| m.signature()).is_some_and(|s| !s.data.mac.is_empty());
+                let tc = rm.as_ref().is_some_and(|m| m.metadata.truncation);
+                let n = rm.as_ref().map(|m| m.answers.len()).unwrap_or(0);
+                stats.push(format!("bigxfr.reply.signed{}.tc{}", b(signed), b(tc)));
+                stats.push(format!("bigxfr.{extra}.{proto}.{payload}.len{}.answers{n}.signed{}.tc{}", reply.len(), b(signed), b(tc)));
+                if signed {
+                    match catch(|| verifier.verify(&reply).is_ok()) {
+                        Ok(true) => {}
+                        Ok(false) => fails.push((
+                            format!("the MAC'ed reply to a correctly signed AXFR ({} octets, {n} answers, TC={tc}) is rejected by the client's TSigVerifier", reply.len()),
+                            "C13.ReplyTruncatedAfterSigning",
+                        )),
+                        Err(p) => {
+                            panic_out(&p, "TSigVerifier::verify", &mut fails);
+                        }
+                    }
+                } else if !tc {
+                    fails.push(("unsigned, untruncated reply to a correctly signed AXFR".into(), ""));
+                }
+            }
+        },
+    }
+    Some(CaseOut { line, out: "~".into(), fails, nontrivial: true, stats })
+}
+
 fn exec(line: &str, rec: &mut Recorder, cx: &Ctx) {
     let t: Vec<&str> = line.split_whitespace().collect();
     let r = catch(|| match t.first().copied() {
@@ -844,10 +916,14 @@ fn exec(line: &str, rec: &mut Recorder, cx: &Ctx) {
         Some("stbs") => exec_stbs(&t),
         Some("vfy") => exec_vfy(&t),
         Some("srv") => exec_srv(&t, cx),
+        Some("bigxfr") => exec_bigxfr(&t, cx),
         _ => None,
     });
     match r {
         Ok(Some(c)) => {
+            if c.out == "~" {
+                rec.impl_only += 1;
+            }
             let idx = rec.case(c.line, c.out);
             rec.stat(&format!("op.{}", t[0]));
             for s in c.stats {
@@ -1371,6 +1447,14 @@ pub fn run(o: &Opts, rec: &mut Recorder) {
                 }
             }
         }
+    }
+
+    // ---- (4b) replies that meet the size limit ----------------------------------------------
+    for (extra, proto, payload) in [(0u32, "tcp", 0u16), (3, "udp", 0), (40, "udp", 0), (40, "udp", 1232), (200, "udp", 4096), (40, "tcp", 0), (900, "tcp", 0)] {
+        if extra > 300 && !thorough {
+            continue;
+        }
+        g.run(format!("bigxfr {extra} {proto} {payload}"));
     }
 
     // ---- (5) random / structured garbage for the raw entry points --------------------------
